@@ -409,7 +409,7 @@ pub fn hoist_candidates(text: &str) -> Vec<String> {
         v.dedup();
         v
     }
-    let d = match Descriptor::<DescriptorPublicKey>::from_str(text) {
+    let d = match crate::wallet::parse_descriptor(text) {
         Ok(d) => d,
         Err(_) => return vec![],
     };
@@ -437,6 +437,6 @@ pub fn hoist_candidates(text: &str) -> Vec<String> {
         }
         _ => {}
     }
-    out.retain(|c| Descriptor::<DescriptorPublicKey>::from_str(c).is_ok());
+    out.retain(|c| crate::wallet::parse_descriptor(c).is_ok());
     out
 }
